@@ -1360,7 +1360,14 @@ def remove_redundant_else(source: str) -> str:
         ranges = [core.get_charnos(child, source) for child in node.orelse]
         start = min((s for (s, _) in ranges))
         end = max((e for (_, e) in ranges))
-        else_matches = list(re.finditer("(?<![^\\n]) *else: *\\n?", source[:start]))
+        # The else of this very statement comes after its body. One that is written in another
+        # way is not found, and an else further up belongs to another statement.
+        body_end = max(core.get_charnos(child, source).end for child in node.body)
+        else_matches = [
+            match
+            for match in re.finditer("(?<![^\\n]) *else: *\\n?", source[:start])
+            if match.start() >= body_end
+        ]
         if not else_matches:
             # Written in another way, such as "else :"
             continue
